@@ -156,8 +156,7 @@ def cursor_check(prop, tier, seed):
         # growing targets with every small amount of spare capacity, two writes, unsampled (amortised growth hides most size errors)
         gen("grow", "mut", 1, 1, 2, [0, 1, 2, 3], ["put_bytes", "put_slice", "put", "manual", "chunk_mut_len"], ["put_u32"], [0],
             3 if q else 1, take=9000, leaf_types=["vec", "bytesmut"], wraps=("ref",))
-        # the same harness under AddressSanitizer: a write past a heap buffer that leaves lengths plausible ends the process there
-        results.append(K.run_and_validate("C11_asan", pick(results[-1]["progs"], 4000 if q else 9000, seed) + pick(results[0]["progs"], 1500, seed), profile="asan"))
+
     elif prop == "C12":
         dm = K.design_mc("C12_design", 3 if not q else 2, 2, 1 if q else 2, [2, 3], ["remaining", "advance", "copy_to_bytes", "chunks_vectored", "try_copy_to_slice"],
                          [], [0], leaf_types=["slice", "deque", "bytes"], wraps=("ref",), sample_k=150 if q else 300, seed=seed)
@@ -175,6 +174,12 @@ def cursor_check(prop, tier, seed):
         # every Chain / Limit over fixed and growing leaves (limits inside, at and beyond the room), two operations: fill, then ask
         gen("mutbfs", "mut", 2, 2, 2, [0, 2], ["put_slice", "has_remaining_mut", "remaining_mut", "chunk_mut_len", "advance_mut"], [], [0], 16 if q else 3,
             take=8000, leaf_types=["slice", "vec"], wraps=())
+    # the same interpreter under AddressSanitizer on a sample of every family: a read or write past
+    # a heap buffer that leaves lengths and contents plausible ends the process there (abort event)
+    allp = []
+    for r in results:
+        allp += pick(r["progs"], (1500 if q else 6000) if r["tag"].endswith("_grow") is False else (4000 if q else 9000), seed)
+    results.append(K.run_and_validate("%s_asan" % prop, allp, profile="asan"))
     if design_progs:
         # replay the design model's own programs: G + V, and D (its predictions vs the recorded results)
         dr = K.run_and_validate("%s_designreplay" % prop, pick(design_progs, 6000 if q else 40000, seed))
